@@ -117,6 +117,20 @@ def _check_one(ctx, bins, s, e):
     g2 = bins(s + 1, e, fmt="gff", one=True)
     ctx.check("bin.smallest", g2 == want, key="gff", start=s + 1, end=e, got=g2, want=want,
               want_if_end_plus_1=kentbins.smallest_bin(s, e + 1))
+    if s >= 1:
+        # the same pair of numbers asked in both conventions within one process, in alternating order: the answer
+        # must depend on the convention named in the call, not on which convention was asked first
+        if s % 2:
+            g3 = bins(s, e, fmt="gff", one=True)
+            b3 = bins(s, e, fmt="bed", one=True)
+        else:
+            b3 = bins(s, e, fmt="bed", one=True)
+            g3 = bins(s, e, fmt="gff", one=True)
+        w3 = kentbins.smallest_bin(s - 1, e)
+        ctx.check("bin.smallest", g3 == w3, key="gff-same-numbers", start=s, end=e, got=g3, want=w3,
+                  want_if_end_plus_1=kentbins.smallest_bin(s - 1, e + 1))
+        ctx.check("bin.smallest", b3 == got, key="bed-repeat", start=s, end=e, got=b3, want=want, first_answer=got,
+                  want_if_end_plus_1=kentbins.smallest_bin(s, e + 1))
     return got
 
 
@@ -268,7 +282,19 @@ def _query(case, ctx):
             continue
         genes.append(GeneInterval([TranscriptInterval([s], [e], Strand.PLUS)], gene_id=f"g{k2}"))
         spans.append((s, e, f"g{k2}"))
-    ac = AnnotationCollection(genes=genes, start=max(0, c - 200), end=c + 200)
+    # a gene whose two isoforms lie on either side of the boundary (different fine bins) with a gap between them
+    if c - 150 >= 1:
+        genes.append(GeneInterval([TranscriptInterval([c - 150], [c - 120], Strand.PLUS), TranscriptInterval([c + 120], [c + 150], Strand.PLUS)],
+                                  gene_id="gspan"))
+        spans.append((c - 150, c + 150, "gspan"))
+    far = (1 << 17) + 20
+    if c - far - 30 >= 1:
+        # isoforms more than one finest bin apart: a query in the middle shares no fine bin with either isoform
+        genes.append(GeneInterval([TranscriptInterval([c - far - 30], [c - far], Strand.PLUS), TranscriptInterval([c + far], [c + far + 30], Strand.PLUS)],
+                                  gene_id="gfar"))
+        spans.append((c - far - 30, c + far + 30, "gfar"))
+    lo_b = max(0, min(s for s, _, _ in spans) - 50) if spans else max(0, c - 200)
+    ac = AnnotationCollection(genes=genes, start=min(lo_b, max(0, c - 200)), end=max(c + 200, max(e for _, e, _ in spans) + 50) if spans else c + 200)
     for qs, qe in itertools.product([c - 100, c - 50, c - 30, c - 5, c, c + 1], [c - 10, c, c + 1, c + 5, c + 20, c + 100]):
         if qs < 1 or qe <= qs:
             continue
@@ -284,6 +310,12 @@ def _query(case, ctx):
         if got != want:
             ctx.violation("bin.query-e2e", key=("dropped" if missing else "extra", "query-end>=2^29" if qe >= kentbins.MAX else "in-range"),
                           centre=c, q=[qs, qe], got=got, want=want)
+        # relaxed mode: members whose span overlaps the range (the bin shortcut must not be applied at all)
+        want2 = sorted(n for s, e, n in spans if s < qe and qs < e)
+        res, exc = ctx.call(ac.query_by_position, qs, qe, completely_within=False)
+        got2 = None if exc is not None else sorted(g.gene_id for g in res.genes)
+        ctx.check("bin.query-e2e", got2 == want2, key=("relaxed", "raised" if exc else "value"), centre=c, q=[qs, qe], got=got2, want=want2,
+                  exc=repr(exc)[:150] if exc else None)
 
 
 def classify(v):
